@@ -189,6 +189,33 @@ def r18_1(ctx):
             ctx.require(not any(e[0] == 'blocking-read' for e in oc.log), 'R18.1', f'{inst}.guarded-read', w,
                         'a read(1) is issued without a preceding positive readability poll (it may block forever)', construct=cons + '::unguarded-read')
     ctx.floor('R18.1', n, 24)
+    # every message type, alone on the connection and in front of the first byte of a message that never completes: the port
+    # takes the bytes in one at a time, and a message is complete with its last byte, whatever kind of byte that is (the status
+    # byte itself for tune_request and the real-time messages, F7 for sysex, a data byte for the rest)
+    from .. import reference
+    nt = 0
+    for status, tname, names, ln in reference.MIDI_SPECS:
+        if tname == 'sysex':
+            body = [0xf0, n1, 0xf7]
+        else:
+            body = [status | (2 if status < 0xf0 else 0)] + [n1, v1][:ln - 1]
+        for tail, tlabel in (([], 'then the peer hangs up'), ([0x93], 'then the status byte of a message that never completes')):
+            nt += 1
+
+            def thunk_t():
+                port, conn = build(ai, ctx, body + tail)
+                ai.sleeps = 0
+                return pm.call(ai, ctx, port, '__iter__')
+            outs = ai.explore(thunk_t)
+            inst = f'iterate({tname} {tlabel})'
+            cons = f'{rc.qname}::complete({tname})'
+            oc = c11.one(ctx, 'R18.1', inst, w, outs, cons)
+            if oc is None:
+                continue
+            items = oc.value.items if oc.kind == 'return' and isinstance(oc.value, AList) else None
+            ok = items is not None and len(items) == 1 and isinstance(items[0], AObj) and items[0].attrs.get('type') == tname
+            ctx.require(ok, 'R18.1', inst, w, f'a complete {tname} arrived, the port yields {items if items is not None else oc!r}', construct=cons)
+    ctx.floor('R18.1-types', nt, 36)
     # the peer dies: the stream ends in a connection reset instead of an orderly end of stream, after a complete message plus k
     # bytes of the next one - the complete messages come out, iteration ends without an exception, the port is closed
     for k in (0, 2):
